@@ -11,7 +11,7 @@ from ..core import Ctx, quiet
 from .c13 import m0, to_dense
 
 
-def one_call(n, kind, storage, pairs, levels, lower2, upper2, T=300.0):
+def one_call(n, kind, storage, pairs, levels, lower2, upper2, T=300.0, holder=None):
     from molgri.molecules.transitions import SQRA
     unit = kB * N_A * T / 1000.0                      # one level = 1 RT in kJ/mol
     energies = np.array(levels, dtype=float) * unit
@@ -20,7 +20,13 @@ def one_call(n, kind, storage, pairs, levels, lower2, upper2, T=300.0):
     dist = coo_array((np.ones(len(rows)), (rows, cols)), shape=(n, n)).tocsr()
     M = m0(n, kind)
     Min = csr_array(M) if storage == "csr" else M
-    sq = SQRA(energies=energies, volumes=np.ones(n), distances=dist, surfaces=dist.copy())
+    # holder: one SQRA object used for a whole series of calls with different limits (a limit scan on one model)
+    if holder is not None and "sq" in holder:
+        sq = holder["sq"]
+    else:
+        sq = SQRA(energies=energies, volumes=np.ones(n), distances=dist, surfaces=dist.copy())
+        if holder is not None:
+            holder["sq"] = sq
     lower = None if lower2 < 0 else lower2 / 2.0
     upper = None if upper2 < 0 else upper2 / 2.0
     rec = dict(n=n, kind=kind, storage=storage, adj=[list(p) for p in pairs] + [[p[1], p[0]] for p in pairs],
@@ -40,6 +46,7 @@ def run(ctx: Ctx, rng):
     thorough = ctx.tier == "thorough"
     ctx.model("CutMerge", "CutMerge.cfg", note="n=3: all adjacency patterns x levels x limit combinations")
     recs = []
+    combo = 0
     sizes = [3, 4] if thorough else [3]
     for n in sizes:
         allpairs = list(itertools.combinations(range(n), 2))
@@ -48,11 +55,13 @@ def run(ctx: Ctx, rng):
                 for levels in itertools.product(range(3), repeat=n):
                     if n == 4 and rng.random() > 0.12:
                         continue
-                    for lower2 in (-1, 1, 3):
+                    combo += 1
+                    holder = {} if combo % 2 else None          # every second input: ONE model object for all nine limit settings
+                    for lower2 in (1, 3, -1):
                         for upper2 in (-1, 1, 3):
                             kind = "zerorow" if (len(recs) % 3) else "generic"
                             storage = "csr" if (len(recs) % 2) else "dense"
-                            recs.append(one_call(n, kind, storage, pairs, levels, lower2, upper2))
+                            recs.append(one_call(n, kind, storage, pairs, levels, lower2, upper2, holder=holder))
     for i, r in enumerate(recs):
         r["tid"] = i
     rejects = ctx.validate("CutMerge_Trace", "CutMerge_Trace.cfg", recs, name="cut")
